@@ -47,6 +47,34 @@ var scanBases = []string{"http://u:p@h:8/a/b?q#f", "https://h/", "file:///C:/d/e
 var scanStarts = []string{"http://u:p@h:8/a/b?q#f", "https://h/", "file:///C:/d", "file://fh/x", "x://h/a?q#f", "x:/a/b", "x:o  ?q#f", "x://:p@h:8?q", "ws://1.2.3.4:81/", "http://[::1]/", "x:///a", "x://h", "file:///", "m:o", "http://h/?a=1&b=2#"}
 var scanSetters = []string{"protocol", "username", "password", "host", "hostname", "port", "pathname", "search", "hash"}
 
+// host-focused vocabularies (C07 / C08 / C09): the scanned input is frame + host built from the vocabulary + tail
+var scanHostVocab = map[string][]string{
+	"v4": {"0", "1", "7", "8", "9", "00", "01", "08", "010", "0x", "0X", "0x1", "0xf", "0XFF", "0xg", "x", "a", "f", "255", "256", "0377", "0400", "65535", "65536", "16777215", "16777216",
+		"4294967295", "4294967296", "0xffffffff", "0x100000000", "037777777777", "040000000000", "99999999999999999999", "0x7fffffffffffffff", "0xffffffffffffffff", "0x10000000000000000",
+		".", ".", ".", "..", "-", "+", "%30", "%31", "%2e", "%2E", "%78", "\uff10", "\uff11", "\uff0e", "\u3002", "\u0661", " ", "_", "e", "1e3"},
+	"v6": {"[", "]", "[", "]", ":", ":", "::", "::", "0", "1", "f", "F", "00", "0000", "00000", "ffff", "FFFF", "abcd", "12345", "g", "1:", ":1", "0:", ":0", "0:0", "1:2:3:4", "1:2:3:4:5:6", "1:2:3:4:5:6:7", "1:2:3:4:5:6:7:8",
+		"0:0:0:0", "0:0:0:0:0:0:0", ".", "1.2.3.4", "1.2.3", "1.2.3.4.5", "255", "256", "01", "1.2.3.256", "18446744073709551617", "9223372036854775808", "99999999999999999999", "4294967297", "1.2.3.18446744073709551616", "1.2.3.04", "1.2.3.4.", ".1", "%31", "%5B", "%5D", "%3A", "/", "@", " ", "x", "v1", "ffff:", "::ffff:", "64:ff9b::", "fe80::", "%25eth0"},
+	"dom": {"a", "b", "A", "Z", "ab", "example", "com", "COM", ".", ".", "..", "-", "--", "_", "xn--", "Xn--", "XN--", "xn--a", "xn--bcher-kva", "xn--pokxncvks", "xn--nxasmq6b", "localhost", "LOCALHOST", "LocalHost", "localhost.", "%6c", "%4C", "%41", "%61", "%2e", "%2E", "%00", "%20", "%25", "%2f", "%3a", "%40", "%5b", "%7f", "%80", "%c3%a9", "%e2%82%ac", "%ff",
+		" ", "^", "|", "<", ">", "~", "!", "$", "&", "'", "(", ")", "*", "+", ",", ";", "=", "\x7f", "\x00", "\x1f", "1", "0x1", "a1", "1a",
+		"\u00e9", "\u00df", "\u0131", "\u212a", "\uff21", "\uff0e", "\u3002", "\uff61", "\u00ad", "\u200d", "\u200c", "\u05d0", "\u0627", "\u4e2d", "\uff05", "\uff0f", "\ufffd", "\u2260", "\u0301", "\U0001F600"},
+}
+var scanHostFrames = [][2]string{{"http://", "/"}, {"ws://", "/p?q"}, {"file://", "/"}, {"x://", "/"}, {"https://u:p@", ":8/"}, {"http://", ""}, {"file://", "/C:/"}, {"x://", ":8"}}
+
+func genHostScan(r *rand.Rand, vocab string, maxTok int) (string, int) {
+	v := scanHostVocab[vocab]
+	var b strings.Builder
+	k := 1 + r.Intn(maxTok)
+	for i := 0; i < k; i++ {
+		b.WriteString(v[r.Intn(len(v))])
+	}
+	h := b.String()
+	if vocab == "v6" && r.Intn(3) != 0 {
+		h = "[" + strings.Trim(h, "[]") + "]"
+	}
+	fi := r.Intn(len(scanHostFrames))
+	return scanHostFrames[fi][0] + h + scanHostFrames[fi][1], fi
+}
+
 func scanText(s string) proj.Text {
 	// raw bytes 0x80 0xff 0xc0 in the token strings are raw invalid bytes (never part of a valid sequence)
 	return proj.FromGo(s)
@@ -187,7 +215,7 @@ func applySetter(u *url.Url, name, v string) {
 
 // scanCandidates explores n generated calls on p and returns at most keep representatives of distinct behaviour classes, the rarest
 // classes first (a defect that needs a specific input shows as a class seen once or twice next to a dominant one).
-func scanCandidates(r *rand.Rand, p url.Parser, n, keep, setterPct int) (cands []scanCand, classes int) {
+func scanCandidates(r *rand.Rand, p url.Parser, n, keep, setterPct int, vocab string) (cands []scanCand, classes int) {
 	type cl struct {
 		c   scanCand
 		cnt int
@@ -204,6 +232,17 @@ func scanCandidates(r *rand.Rand, p url.Parser, n, keep, setterPct int) (cands [
 					ok = "PANIC"
 				}
 			}()
+			if vocab != "" {
+				in, fi := genHostScan(r, vocab, kTok+3)
+				c.In = scanText(in)
+				key = "H" + string(rune('A'+fi)) + skel(in[len(scanHostFrames[fi][0]):], kIn+3, false)
+				u, err := p.Parse(c.In.ToGo())
+				ok = outKey(u, err)
+				if u != nil && err == nil {
+					ok += "|" + skel(u.Hostname(), 24, false)
+				}
+				return
+			}
 			if r.Intn(100) < setterPct {
 				si := r.Intn(len(scanStarts))
 				c.In = scanText(scanStarts[si])
